@@ -151,6 +151,82 @@ class Elementwise:
         return 0 if p.returncode == 0 else 2
 
 
+class MathCheck:
+    """A property decided by xvmath (elementary functions)."""
+
+    def __init__(self, types, rule, bound, extra_args=(), deadline=(900, 14400), assumptions=None):
+        self.types = types
+        self.rule = rule
+        self.bound = bound
+        self.extra_args = list(extra_args)
+        self.deadline = deadline
+        self.assumptions = (assumptions or []) + [
+            "first reference: glibc double (for float32 arguments) / glibc long double (for double arguments); a candidate violation is reported only if MPFR 4 at 160 bits confirms it",
+        ] + ASSUME_COMMON
+
+    def build(self, prop):
+        run, skipped = vlib.runnable_archs()
+        res, errs = vlib.build_modules("math", run)
+        if errs:
+            for a, log in errs.items():
+                sys.stderr.write("---- build of harness math for %s failed ----\n%s\n" % (a, log[-4000:]))
+            print("[vcheck] %s: harness math does not compile for %s against the current tree" % (prop, ",".join(sorted(errs))))
+            sys.exit(2)
+        drv = vlib.build_driver("xvmath", libs=("-ldl", "-lpthread", "-lmpfr", "-lgmp"))
+        return drv, [res[a] for a in run], run, skipped
+
+    def run(self, prop, tier, seed):
+        t0 = time.time()
+        drv, mods, run, skipped = self.build(prop)
+        os.makedirs(vlib.OUT, exist_ok=True)
+        out = os.path.join(vlib.OUT, "%s.%s.result.json" % (prop, tier))
+        if os.path.exists(out):
+            os.unlink(out)
+        known = ",".join(f["id"] for f in vlib.open_findings(prop))
+        cmd = [drv, "--prop", prop, "--tier", tier, "--seed", str(seed), "--out", out, "--threads", str(vlib.NPROC), "--types", self.types,
+               "--deadline", str(self.deadline[1 if tier == "thorough" else 0])] + self.extra_args
+        if known:
+            cmd += ["--known", known]
+        for m in mods:
+            cmd += ["--mod", m]
+        p = subprocess.run(cmd)
+        if p.returncode == 4 and os.path.exists(out):
+            h = json.load(open(out))
+            path = vlib.write_replay(prop, 0, h)
+            print("VIOLATION property=%s replay=%s  # %s on %s did not return within 30 s (arguments between %s and %s)" % (prop, path, h.get("op"), h.get("arch"), h.get("first_arg"), h.get("last_arg")))
+            return 1
+        if p.returncode != 0:
+            print("[vcheck] explorer failed with status %d" % p.returncode)
+            return 2
+        res = json.load(open(out))
+        res["wall_s"] = time.time() - t0
+        bound = self.bound[tier] if isinstance(self.bound, dict) else self.bound
+        extra = {"disagreements_checked": res.get("disagreements_checked", 0)}
+        return _finish(prop, tier, seed, res, skipped, self.rule, bound, self.assumptions, extra, replay_kind="math")
+
+    def replay(self, prop, path):
+        v = json.load(open(path))
+        if v.get("hang"):
+            print("[vcheck] hang replay: re-run the check; the block is identified in %s" % path)
+            return 2
+        drv, mods, run, skipped = self.build(prop)
+        ins = ":".join(",".join(x) for x in v["in"])
+        cmd = [drv, "--prop", prop, "--replay", "--op", v["op"], "--type", v["type"], "--arch", v["arch"], "--in", ins] + self.extra_args
+        for m in mods:
+            cmd += ["--mod", m]
+        p = subprocess.run(cmd, stdout=subprocess.PIPE, text=True)
+        sys.stdout.write(p.stdout)
+        if p.returncode == 1:
+            print("VIOLATION property=%s replay=%s" % (prop, path))
+            return 1
+        return 0 if p.returncode == 0 else 2
+
+
+RULE_MATH = ("every point of the stated argument space is evaluated twice, once among neighbouring arguments and once in a strided order where "
+             "the lanes of one batch come from 16 distant parts of the space, by every architecture's real kernel; each lane result is judged "
+             "against the exact value (ulp bound inside the normal range, graceful-degradation predicate outside); states = arguments x orders; "
+             "transitions = lane results judged")
+
 RULE_EW = ("odometer over the complete Cartesian product of the stated operand alphabets, every tuple placed at every lane offset "
            "(lane_shifts), executed by every architecture's real kernel and compared lane by lane with the reference model; "
            "states = operand tuples x lane offsets x operations; transitions = lane results compared; "
@@ -178,6 +254,15 @@ CHECKS = {
     "C08": Elementwise(["fp"], RULE_EW, {
         "quick": "every k/2 and its two neighbours for |k| <= 2^13, +-64-ulp windows at 2^22..2^25, 2^30..2^33, 2^51..2^54, 2^62..2^64, special lattice x all lane offsets, every binade x 64 mantissa patterns; results compared as numbers; all 22 architectures",
         "thorough": "as quick plus all 2^32 float32 bit patterns, |k| <= 2^16 and 256 mantissa patterns per double binade"}),
+    "C10": MathCheck("float", RULE_MATH, {
+        "quick": "per unary function: every float32 binade x 2048 mantissa patterns, +-64-ulp windows at 70 algorithm switch points, k*pi/2 +- 3 ulp for k <= 3000 and a geometric ladder beyond, k/2 +- 2 ulp up to 180, special lattice, seed symbols; binary functions: thinned lattice^2; both stream orders; frozen bounds of DESIGN.md 8.1; all 22 architectures",
+        "thorough": "all 2^32 float32 arguments of each of the 28 unary functions (both halves of sincos included), both stream orders; binary functions on the larger lattice^2"}),
+    "C11": MathCheck("double", RULE_MATH, {
+        "quick": "per function: every double binade x 256 mantissa patterns, +-64-ulp windows at 70 switch points, k*pi/2 +- 3 ulp for k <= 3000 and a geometric ladder up to 2^900, k/2 +- 2 ulp up to 180, special lattice, seed symbols; thinned lattice^2 for the binary functions; both stream orders; 4.5 ulp for the exp/log/trig/hyperbolic/inverse/cbrt/hypot/atan2 families, DESIGN.md 8.2 for erf/erfc/tgamma/lgamma; nothing is claimed between lattice points",
+        "thorough": "4096 mantissa patterns per binade, +-256-ulp windows, k <= 20000"}),
+    "C14": MathCheck("float,double", RULE_MATH + "; for C14 the judged quantity is the number of iterations of the data-dependent loops of one call (hook XSIMD_VERIF_LOOP_TICK) against the frozen constants of DESIGN.md 8.3, a call is aborted and reported after 1000 iterations, and a watchdog reports any kernel call that does not return within 30 s", {
+        "quick": "the C10 and C11 quick argument spaces of every elementary function, both stream orders (so that lanes of very different magnitude share a batch), all 22 architectures",
+        "thorough": "all 2^32 float32 arguments of every unary function and the C11 thorough lattice"}, extra_args=["--ticks"]),
     "C17": Elementwise(["scalar"], RULE_EW + "; the scalar overloads are run one element per call and judged by the same reference models as the batch lanes (so scalar == batch wherever the model is single-valued); NaN operands are outside the property", {
         "quick": "the C01/C02/C03/C06/C07/C08 operand spaces (8-bit pairs exhaustive, ALL16 x L16, lattices^2, every shift/rotate count, fp lattices, rounding windows) for add, sub, mul, div, mod, neg, abs, min, max, sadd, ssub, avg, avgr, incr/decr(_if), bitwise operators, shifts, rotates, comparisons, select, is_flint/is_even/is_odd, fma family, nearbyint_as_int, bitwise_cast, clip, pow with 21 integer exponents (scalar and batch forms against the shared square-and-multiply model); all 22 architectures' compile flags",
         "thorough": "as quick with the thorough spaces of the underlying properties"}),
